@@ -670,7 +670,12 @@ fn rand_term(r: &mut Rng, depth: u32, pool: &Pool) -> Term {
         _ => { let (h, n) = r.pick(&pool.ders).clone(); Term::Der(h, (0..n).map(|_| rand_term(r, depth - 1, pool)).collect()) }
     }
 }
-fn real_name_id(n: &str) -> StableTypeID { StableTypeID::from_unique_type_name(Box::leak(n.to_string().into_boxed_str())) }
+fn real_name_id(n: &str) -> StableTypeID {
+    // `from_unique_type_name` wants a `&'static str`; every distinct name is leaked once
+    thread_local! { static NAMES: RefCell<HashMap<String, &'static str>> = RefCell::new(HashMap::new()); }
+    let s: &'static str = NAMES.with(|m| *m.borrow_mut().entry(n.to_string()).or_insert_with(|| Box::leak(n.to_string().into_boxed_str())));
+    StableTypeID::from_unique_type_name(s)
+}
 /// the folds as the impls / the derive write them, on the real `combine`
 fn real_id(t: &Term) -> StableTypeID {
     match t {
